@@ -416,19 +416,28 @@ func (c *Ctx) heap(st *State, sort string) Term {
 	c.heapSort[hn] = sort
 	name := hn + "@0"
 	hs := fmt.Sprintf("(Array Ptr %s)", sort)
-	c.declare(name, hs)
+	if !c.declared[name] {
+		c.declare(name, hs)
+		c.wfHeap(Term{name, hs}, sort, Term{"alloc@0", SInt})
+	}
 	h := Term{name, hs}
 	st.heaps[hn] = h
 	return h
 }
 
+// wfHeap adds the heap well-formedness fact for a pointer heap that is not derived from another
+// one by stores (entry heap, havocked heap): every stored pointer refers to an allocated object.
+func (c *Ctx) wfHeap(h Term, sort string, alloc Term) {
+	if sort != SPtr {
+		return
+	}
+	c.assume(Term{fmt.Sprintf("(forall ((p Ptr)) (! (< (rootid (select %s p)) %s) :pattern ((select %s p))))", h.S, alloc.S, h.S), SBool})
+}
+
 func (c *Ctx) entryHeap(sort string) Term {
 	hn := heapName(sort)
 	c.heapSort[hn] = sort
-	name := hn + "@0"
-	hs := fmt.Sprintf("(Array Ptr %s)", sort)
-	c.declare(name, hs)
-	return Term{name, hs}
+	return c.entryHeapByName(hn)
 }
 
 func (c *Ctx) setHeap(st *State, sort string, h Term) {
